@@ -347,13 +347,17 @@ def run_tdvp(ctx, psi, H, sec, run, tag, witness, full, ref0, Hfun=None, judge=T
         s_exp, divides = expected_steps(delta, dt)
         if not divides:
             ctx.count("dt_not_dividing")
-        if out.steps != s_exp:
+        # when dt divides the interval up to rounding, "the ratio is an integer" is not decidable in floating point: the real
+        # ratio may be a hair above k, for which k + 1 (slightly shorter) steps are the documented answer as well
+        if out.steps != s_exp and not (divides and out.steps == s_exp + 1):
             ctx.violation("bookkeeping:steps", f"{tag} snapshot {k}: {out.steps} steps for an interval {delta!r} with dt = {dt!r}; "
                           f"the smallest number of steps not longer than dt is {s_exp}", w)
         if out.steps > 0 and not ctx.margin("steps*dt", abs(out.steps * out.dt - delta), 1e-12 * tscale):
             ctx.violation("bookkeeping:dt", f"{tag} snapshot {k}: steps*dt = {out.steps * out.dt!r} != interval {delta!r}", w)
         if out.dt > dt * (1 + 1e-12):
             ctx.violation("bookkeeping:dt-increased", f"{tag} snapshot {k}: used dt = {out.dt!r} exceeds requested dt = {dt!r}", w)
+        if divides and out.steps == s_exp + 1:
+            ctx.count("steps_k+1_at_exact_division")
         calls += max(int(out.steps), s_exp) * nsub * 4 * N
         allowed = calls * C_TOL * tol + FLOOR
         # ---------------- state clauses
